@@ -783,6 +783,32 @@ func init() {
 	I["time.NewTicker"] = func(th *Thread, fn *ssa.Function, args []Value) Value {
 		return th.m.newTicker(th, fn)
 	}
+	// time.NewTimer / time.After: a timer that may fire at any scheduling point (once)
+	I["time.NewTimer"] = func(th *Thread, fn *ssa.Function, args []Value) Value {
+		return th.m.newTickerN(th, fn.Signature.Results().At(0).Type(), 1)
+	}
+	I["time.After"] = func(th *Thread, fn *ssa.Function, args []Value) Value {
+		m := th.m
+		tp := m.prog.ImportedPackage("time")
+		cell := m.newTickerN(th, types.NewPointer(tp.Type("Timer").Type()), 1).(*Value)
+		st := deref(types.NewPointer(tp.Type("Timer").Type())).Underlying().(*types.Struct)
+		for i := 0; i < st.NumFields(); i++ {
+			if st.Field(i).Name() == "C" {
+				return (*cell).(Struct)[i]
+			}
+		}
+		return nil
+	}
+	I["(*time.Timer).Stop"] = func(th *Thread, fn *ssa.Function, args []Value) Value {
+		m := th.m
+		p := args[0].(*Value)
+		fired := false
+		if tk := m.tickers[p]; tk != nil {
+			fired = tk.stopped || len(tk.ch.buf) > 0
+			tk.stopped = true
+		}
+		return m.ts.Bool(!fired)
+	}
 	I["(*time.Ticker).Stop"] = func(th *Thread, fn *ssa.Function, args []Value) Value {
 		m := th.m
 		p := args[0].(*Value)
